@@ -36,7 +36,8 @@ from . import c18_runner as support
 
 ERRS = ["ValueError:boom{}", "KeyError:k{}", "RuntimeError:rt{}", "AntismashInputError:bad{}",
         "SecmetInvalidInputError:sec{}"]
-STALL_TIMEOUT = 0.03       # seconds; deadline used when the schedule says "the deadline passes"
+KF_UNRECONSTRUCTIBLE = "KF-C18-unreconstructible-exception"
+STALL_TIMEOUT = 0.01       # seconds; deadline used when the schedule says "the deadline passes"
 FAR_TIMEOUT = 60.0         # a deadline that is given but never reached
 
 
@@ -98,10 +99,11 @@ class _Control:
         self.released = threading.Event()
         self.blocked = False
         self.pools: List[Any] = []
+        self.instances: List[Any] = []
         self.fakes: List[_FakeWorker] = []
         self.children_calls = 0
         self.thread: Optional[threading.Thread] = None
-        self.watchdog = (1.0 if _Control.blocked_seen < 3 else 0.05) + deadline
+        self.watchdog = (3.0 if _Control.blocked_seen < 3 else 0.05) + deadline
 
     # called by the pool when the batch is submitted
     def prepare(self, n: int, workers: int) -> None:
@@ -160,6 +162,10 @@ class _Control:
                     time.sleep(0.00005)
                 if left is None:
                     time.sleep(0.002)
+                elif left == 1:
+                    # last chunk: `_set` decrements before it publishes; wait for the publication
+                    while not result.ready() and not self.released.is_set() and time.monotonic() < limit:
+                        time.sleep(0.00005)
             elif event[0] == "timeout":
                 if self.has_timeout:
                     break
@@ -171,6 +177,8 @@ class _Control:
                     self.fakes[event[1] % len(self.fakes)].alive = False
                 break
         if not self.released.wait(self.watchdog):
+            if result.ready() and self.released.wait(60.0):
+                return                # the caller was merely slow to pick the finished result up
             self.blocked = True
             _Control.blocked_seen += 1
             self.release_all()
@@ -182,6 +190,7 @@ def _pool_class(ctl: _Control) -> Any:
     class GatedPool(ThreadPool):
         def __init__(self, processes: Any = None, *args: Any, **kwargs: Any) -> None:
             ctl.pools.append(processes)
+            ctl.instances.append(self)
             super().__init__(processes, *args, **kwargs)
 
         def starmap_async(self, func: Any, iterable: Any, *args: Any, **kwargs: Any) -> Any:
@@ -244,7 +253,8 @@ def run_scheduled(case: Dict[str, Any]) -> Dict[str, Any]:
         ctl.pass_gate(i)
         out = outcomes[i]
         if out[0] == "rc":
-            return base.RunResult(command, b"", b"noise\n" if out[2] else b"", out[1], True, True)
+            noisy = out[2] and not ctl.released.is_set()     # late workers of a terminated pool stay quiet
+            return base.RunResult(command, b"", b"noise\n" if noisy else b"", out[1], True, True)
         if out[0] == "kbd":
             raise KeyboardInterrupt()
         raise support.make_error(out[1])
@@ -277,6 +287,10 @@ def run_scheduled(case: Dict[str, Any]) -> Dict[str, Any]:
                 obs: Dict[str, Any] = {"ret": ret}
             except Exception as exc:  # pylint: disable=broad-except
                 obs = support.classify_error(exc)
+            ctl.release_all()
+            for instance in ctl.instances:       # parallel_execute terminates but does not join its pool
+                for worker in list(getattr(instance, "_pool", None) or []):
+                    worker.join(1.0)
     finally:
         ctl.release_all()
         destroy_config()
@@ -406,7 +420,8 @@ class C18(Property):
                         base_events = [["done", c] for c in perm]
                         variants: List[Tuple[bool, List[List[Any]]]] = [(False, base_events)]
                         if bad is None or full:
-                            for pos in range(len(base_events) + 1):
+                            positions = range(len(base_events) + 1) if bad is None else (0, len(base_events) // 2)
+                            for pos in positions:
                                 variants.append((True, base_events[:pos] + [["timeout"]] + base_events[pos:]))
                                 if pos % 2 == 0:
                                     variants.append((False, base_events[:pos] + [["died", pos % k]] + base_events[pos:]))
@@ -502,10 +517,16 @@ class C18(Property):
                     cases.append({"kind": "rpf", "cpus": k, "tasks": tasks, "timeout": 0.25})
                 elif k >= 2:
                     tasks[victim] = [rng.choice([0, 20]), variant, 1]
-                    case: Dict[str, Any] = {"kind": "rpf", "cpus": k, "tasks": tasks, "limit": 4.0}
+                    case: Dict[str, Any] = {"kind": "rpf", "cpus": k, "tasks": tasks, "limit": 12.0}
                     if rng.random() < 0.5:
                         case["timeout"] = 30
                     cases.append(case)
+        if thorough:
+            for k in (2, 7):
+                tasks = tasks_for(k + 1, k, "random")
+                tasks[1] = [5, "Unreconstructible:7/cannot be rebuilt", 0]
+                cases.append({"kind": "rpf", "cpus": k, "tasks": tasks, "limit": 3.0})
+                cases.append({"kind": "rpf", "cpus": 1, "tasks": tasks})      # in-process: surfaces unchanged
         # records across the boundary
         rec_cpus = [2, 3, 4, 7, 8, 16] if thorough else [2, rng.choice([3, 5, 8])]
         for k in rec_cpus:
@@ -593,6 +614,13 @@ class C18(Property):
         return self._collect(proc, [case], 120.0)[0]
 
     @staticmethod
+    def in_unreconstructible_class(case: Dict[str, Any]) -> bool:
+        """known-finding class: real worker processes (cpus >= 2) and some call raises an exception
+           whose class cannot be rebuilt from its `args` (unpickling it kills CPython's result handler)"""
+        return (case["kind"] == "rpf" and case["cpus"] >= 2
+                and any(str(t[1]).startswith("Unreconstructible:") for t in case["tasks"]))
+
+    @staticmethod
     def _outcome(obs: Dict[str, Any]) -> Dict[str, Any]:
         return {k: obs[k] for k in ("ret", "err", "e", "blocked") if k in obs}
 
@@ -645,7 +673,7 @@ class C18(Property):
         if kind in ("rpf", "rpe"):
             tags.append(f"cpus{case['cpus']}")
             failing = [t for t in case.get("tasks", []) if t[1] not in ("ok", "exit", "sysexit")]
-            ambiguous = kind == "rpe" or (len(failing) >= 2 and obs.get("min_failure_gap_ms", 0) < 25)
+            ambiguous = kind == "rpe" or (len(failing) >= 2 and obs.get("min_failure_gap_ms", 0) < 50)
             if ambiguous and spec_ok:
                 corr = True       # which of several failures arrived first was not observed reliably
             if kind == "rpf":
@@ -677,7 +705,14 @@ class C18(Property):
         pool_path = resolved >= 2 or kind in ("pe", "rpe")
         nontrivial = pool_path and drv.get("chunks", 0) >= 2 and (order != sorted(order) or "ret" not in impl)
         tags.append("pool" if pool_path else "single-cpu")
-        return Judgement(corr, spec_ok, in_scope=bool(drv.get("scope", True)), nontrivial=nontrivial,
+        known = None
+        in_scope = bool(drv.get("scope", True))
+        if self.in_unreconstructible_class(case):
+            in_scope = False          # outside `faithful_pickling_invisible_partial`'s hypothesis on exceptions
+            tags.append("unreconstructible-exception")
+            if not spec_ok or not corr:
+                known = KF_UNRECONSTRUCTIBLE
+        return Judgement(corr, spec_ok, in_scope=in_scope, known=known, nontrivial=nontrivial,
                          tags=tuple(tags), detail=detail)
 
     # ------------------------------------------------------------------ real-process checks
@@ -711,7 +746,7 @@ class C18(Property):
             nontrivial += verdict.nontrivial
             if not verdict.spec_ok or not verdict.corr_ok:
                 failures.append(Failure("spec" if not verdict.spec_ok else "correspondence", case, obs, drv,
-                                        verdict.detail))
+                                        verdict.detail, verdict.known))
         self.extra_evaluations = len(pairs)
         self.extra_coverage = {"real_process_cases": len(pairs), "real_process_nontrivial": nontrivial,
                                "real_process_tags": dict(sorted(tags.items())),
